@@ -261,3 +261,101 @@ Theorem C19_generated_default_masks :
   gen_set_error_handler_default_3 = 7.
 Proof. exact gen_default_masks. Qed.
 Print Assumptions C19_generated_default_masks.
+
+(* ---- translator tie: the read-only views and the decorator forms
+   (harness/py2v_views.py -> gen/ViewsGen.v, proofs/ViewsGenEq.v) *)
+Require Import PW.gen.ViewsGen PW.proofs.ViewsGenEq.
+
+(* every view property (filters, before, after, defaults, routes,
+   regular_routes, states, errors) returns the table of the model that the
+   refinement theorems compare; the canonical views [lookup] / [filter_of]
+   are functions of what the properties return; every property detaches its
+   result by tuple() / .copy(); a returned value is not changed by a later
+   operation *)
+Theorem C19_generated_views_are_model :
+  (forall a,
+     gen_view_filters a = a_filters a /\ gen_view_before a = a_before a /\
+     gen_view_after a = a_after a /\ gen_view_defaults a = a_defaults a /\
+     gen_view_routes a = a_routes a /\
+     gen_view_regular_routes a = a_regular a /\
+     gen_view_states a = a_states a /\ gen_view_errors a = a_errors a) /\
+  (forall a key m n,
+     lookup a KDefault 0 m = zget m (gen_view_defaults a) /\
+     lookup a KRoute key m = tlookup (gen_view_routes a) key m /\
+     lookup a KRegular key m = tlookup (gen_view_regular_routes a) key m /\
+     lookup a KState key m = tlookup (gen_view_states a) key m /\
+     lookup a KError key m = tlookup (gen_view_errors a) key m /\
+     filter_of a n = get lz_eqb n (gen_view_filters a)) /\
+  forallb (fun r => let k := snd (fst r) in
+                    (String.eqb k "tuple" || String.eqb k "copy")%bool)
+          gen_views = true /\
+  (forall a o,
+     let before := gen_view_before a in
+     let after := gen_view_after a in
+     let defaults := gen_view_defaults a in
+     let filters := gen_view_filters a in
+     let a' := fst (step a o) in
+     before = a_before a /\ after = a_after a /\ defaults = a_defaults a /\
+     filters = a_filters a /\
+     (forall f, inb f (a_before a) = false ->
+        gen_view_before (fst (step a (AddBefore f))) = before ++ [f])).
+Proof.
+  split; [exact gen_views_are_model|].
+  split; [exact gen_views_give_lookup|].
+  split; [exact (proj1 (proj2 gen_views_table))|].
+  exact gen_views_are_snapshots.
+Qed.
+Print Assumptions C19_generated_views_are_model.
+
+(* `app.D(args)(fun)`: the wrapper performs the operation of the set_* /
+   add_* method with the decorator's arguments and returns fun (nothing when
+   the method raises); the defaults of the decorators' signatures are those
+   of the methods *)
+Theorem C19_generated_decorators_are_model :
+  (forall a f,
+     gen_deco_before_response a f = decorated (step a (AddBefore f)) f /\
+     gen_deco_before_request a f = decorated (step a (AddBefore f)) f /\
+     gen_deco_after_response a f = decorated (step a (AddAfter f)) f /\
+     gen_deco_after_request a f = decorated (step a (AddAfter f)) f) /\
+  (forall a u r code e mask f,
+     gen_deco_default a mask f = decorated (step a (SetDefault f mask)) f /\
+     gen_deco_route a u mask f = decorated (step a (SetRoute u f mask)) f /\
+     gen_deco_regular_route a r mask f =
+       decorated (step a (SetRegular r f mask)) f /\
+     gen_deco_http_state a code mask f =
+       decorated (step a (SetState code f mask)) f /\
+     gen_deco_error_handler a e mask f =
+       decorated (step a (SetError e f mask)) f) /\
+  (forall a u r code e mask f,
+     gen_deco_default a mask f =
+       (fst (step a (SetDefault f mask)), Done, Some f) /\
+     gen_deco_route a u mask f =
+       (fst (step a (SetRoute u f mask)), Done, Some f) /\
+     gen_deco_regular_route a r mask f =
+       (fst (step a (SetRegular r f mask)), Done, Some f) /\
+     gen_deco_http_state a code mask f =
+       (fst (step a (SetState code f mask)), Done, Some f) /\
+     gen_deco_error_handler a e mask f =
+       (fst (step a (SetError e f mask)), Done, Some f)) /\
+  (gen_deco_default_default_1 = 3 /\ gen_deco_route_default_2 = 3 /\
+   gen_deco_regular_route_default_2 = 3 /\
+   gen_deco_http_state_default_2 = 7 /\
+   gen_deco_error_handler_default_2 = 7).
+Proof.
+  split.
+  { intros a f. repeat split.
+    - apply gen_deco_before_response_is_model.
+    - apply gen_deco_before_request_is_model.
+    - apply gen_deco_after_response_is_model.
+    - apply gen_deco_after_request_is_model. }
+  split.
+  { intros a u r code e mask f. repeat split.
+    - apply gen_deco_default_is_model.
+    - apply gen_deco_route_is_model.
+    - apply gen_deco_regular_route_is_model.
+    - apply gen_deco_http_state_is_model.
+    - apply gen_deco_error_handler_is_model. }
+  split; [exact gen_deco_set_returns_fun|].
+  repeat split.
+Qed.
+Print Assumptions C19_generated_decorators_are_model.
